@@ -92,11 +92,28 @@ func copyBlock(v reflect.Value, block Block) error {
 			return fmt.Errorf("found field %q but is unexported", f.Name)
 		}
 
-		namei := f.Index[0]
+		if x == nil {
+			return fmt.Errorf(
+				"nil value for the mapped field: struct.%s, block.%s", f.Name, name,
+			)
+		}
+		dest, err := v.FieldByIndexErr(f.Index)
+		if err != nil {
+			return fmt.Errorf("field %q: %w", f.Name, err)
+		}
+		if !dest.CanSet() {
+			return fmt.Errorf("found field %q but it cannot be set", f.Name)
+		}
 		vx := reflect.ValueOf(x)
 
 		if vx.Type().AssignableTo(blockType) {
-			return copyBlock(v.Field(namei), x.(Block))
+			if k := dest.Kind(); k != reflect.Struct {
+				return fmt.Errorf(
+					"type mismatch for the mapped field: struct.%s has %s, block.%s is a block",
+					f.Name, f.Type, name,
+				)
+			}
+			return copyBlock(dest, x.(Block))
 		}
 
 		if st, bt := f.Type, vx.Type(); !bt.AssignableTo(st) {
@@ -106,7 +123,7 @@ func copyBlock(v reflect.Value, block Block) error {
 			)
 		}
 
-		v.Field(namei).Set(vx)
+		dest.Set(vx)
 		return nil
 	}
 
